@@ -156,6 +156,14 @@ def make_designs(ctx: Ctx, n: int):
                     rec = copy.deepcopy(rng.choice(f0['records']))
                     rec['info'] = {d['vcfs'][1]['id_tag']: '77'} if d['vcfs'][1].get('id_tag') else {}
                     d['vcfs'][1]['records'].append(rec)
+        if d['mode'] == 'sge' and i % 4 == 1:
+            # length limits that exclude every oligonucleotide of the longer targetons and none (or only the insertions) of the shortest
+            ad = len(d['opts'].get('adaptor5') or '') + len(d['opts'].get('adaptor3') or '')
+            lens = [t['ref_end'] - t['ref_start'] + 1 + ad for t in d['targetons']]
+            if rng.random() < 0.6:
+                d['opts']['max_length'] = min(lens) + rng.choice([0, 0, 1])
+            else:
+                d['opts']['min_length'] = max(lens) - rng.choice([0, 0, 1])
         if d['mode'] == 'sge' and i % 7 == 3:
             # two contigs in one run whose targetons share sgRNA names (the edits differ): the order of the targeton rows decides which
             # contig is processed first
